@@ -243,6 +243,7 @@ def run(ctx):
     ok = ok and ctx.build_models(["Model/Paths.vo"])
     if ok:
         ctx.build_props()
+        ctx.build_props("Props/C05s.vo")  # every schedule of a worker pool (Model/Sched.v) over the generated kernel and batch_tasks
     else:
         ctx.obligations += 1
     specs = load_corpus("C05") + gen_cases(ctx)
